@@ -27,6 +27,17 @@ def vq(s: str, upper: bool = False) -> str:
     return "".join(out)
 
 
+def dq(s: str, upper: bool = False, style: str = "full") -> str:
+    """Quoting of a value inside a crypto dictionary (k=v:k=v). 'vmware' escapes only what the dictionary syntax needs -
+    '%', '=', ':' - the way the products write it (tests/data/encrypted.vmx: salt=LKX/ScQY...%3d%3d, '/' and '+' literal)."""
+    if style == "full":
+        return vq(s, upper)
+    out = []
+    for c in s:
+        out.append((("%%%02X" if upper else "%%%02x") % ord(c)) if c in "%=:" else c)
+    return "".join(out)
+
+
 def pkcs7(data: bytes) -> bytes:
     n = 16 - len(data) % 16
     return data + bytes([n]) * n
@@ -40,12 +51,12 @@ def seal_cbc_hmac(key: bytes, iv: bytes, plaintext: bytes, mac_name: str) -> byt
 
 
 def keysafe_pair(passphrase: str, kdf: str, cipher: str, rounds: int, salt: bytes, mac_name: str, data_key: bytes, data_cipher: str,
-                 phrase_id: bytes, iv: bytes, upper: bool = False) -> tuple[str, bytes]:
+                 phrase_id: bytes, iv: bytes, upper: bool = False, dict_style: str = "full") -> tuple[str, bytes]:
     """One pair/(phrase/...,mac,blob) member. Returns (text, raw blob)."""
     wrap_key = hashlib.pbkdf2_hmac(KDFS[kdf], passphrase.encode(), salt, rounds, CIPHERS[cipher])
-    inner = f"type=key:cipher={data_cipher}:key={vq(base64.b64encode(data_key).decode(), upper)}".encode()
+    inner = f"type=key:cipher={data_cipher}:key={dq(base64.b64encode(data_key).decode(), upper, dict_style)}".encode()
     blob = seal_cbc_hmac(wrap_key, iv, inner, mac_name)
-    cdict = f"pass2key={kdf}:cipher={cipher}:rounds={rounds}:salt={vq(base64.b64encode(salt).decode(), upper)}"
+    cdict = f"pass2key={kdf}:cipher={cipher}:rounds={rounds}:salt={dq(base64.b64encode(salt).decode(), upper, dict_style)}"
     text = "pair/(phrase/%s/%s,%s,%s)" % (vq(base64.b64encode(phrase_id).decode(), upper), vq(cdict, upper), vq(mac_name, upper),
                                           vq(base64.b64encode(blob).decode(), upper))
     return text, blob
